@@ -66,7 +66,7 @@ def rm(d):
 
 
 # ------------------------------------------------------------------ harness
-def run_harness(exe, cmd, records, workdir, tag='h', timeout=600, jobs=8):
+def run_harness(exe, cmd, records, workdir, tag='h', timeout=600, jobs=8, _confirm=True):
     """Feed records (dicts) to `fml --verif cmd`; returns outputs in order.  If the code under test
     kills the harness process (native stack overflow, abort), the record that did it gets
     {'id':..,'crash':signal/exit} and the run resumes after it.  Records are split over `jobs` processes."""
@@ -136,6 +136,14 @@ def run_harness(exe, cmd, records, workdir, tag='h', timeout=600, jobs=8):
     for j, pr in enumerate(procs):
         for k, r in enumerate(pr[-1]):
             out[j + k * jobs] = r
+    # a death of the harness process is attributed to the record it was handling only if it happens again when that record is run alone in a fresh process
+    # (a crash caused by the code under test is deterministic; under memory pressure a process can also be killed from outside - seen once in 417 000 programs)
+    if _confirm:
+        for i, r in enumerate(out):
+            if r is not None and r.get('crash') is not None:
+                again = run_harness(exe, cmd, [records[i]], workdir, tag='%s.again%d' % (tag, i), timeout=timeout, jobs=1, _confirm=False)
+                if again and again[0] is not None and again[0].get('crash') is None:
+                    out[i] = again[0]
     return out
 
 
